@@ -27,8 +27,8 @@ func NewIntegerIter[N integer](n N) Iterator[pair[N, any]] {
 	return &integerIter[N]{n: n}
 }
 
-func NewStringIter(str string) Iterator[pair[int, rune]] {
-	return &stringIter{str: str}
+func NewStringIter[S ~string](str S) Iterator[pair[int, rune]] {
+	return &stringIter{str: string(str)}
 }
 
 func NewSliceIter[V any](slice []V) Iterator[pair[int, V]] {
